@@ -106,7 +106,7 @@ impl JavaState {
             description,
             // real favicons are a base64 PNG of several kilobytes: now and then one that takes the status
             // JSON past 32767 bytes
-            favicon: opt(t).then(|| if t.draw(DATA, 30) == 0 { format!("data:image/png;base64,{}", "iVBORw0KGgo".repeat(3200 + t.draw(DATA, 600) as usize)) } else { format!("data:image/png;base64,{}", gen::word(t, 64)) }),
+            favicon: opt(t).then(|| if t.draw(DATA, 30) == 0 { format!("data:image/png;base64,{}", "iVBORw0KGgo".repeat(3200 + t.draw(DATA, 600) as usize)) } else if t.draw(DATA, 6) == 0 { (*t.pick(DATA, &["", "data:image/jpeg;base64,AAAA", "favicon.png", "DATA:IMAGE/PNG;BASE64,xx", " data:image/png;base64,yy"])).to_string() } else { format!("data:image/png;base64,{}", gen::word(t, 64)) }),
             previews_chat: opt(t).then(|| gen::bool_(t)),
             enforces_secure_chat: opt(t).then(|| gen::bool_(t)),
             extra_member: opt(t),
